@@ -86,6 +86,13 @@ def run(tier, seed):
     po = proof_obligations("WowVerif.Thm.C03", ["wowdrv"])
     add_proof_failures(rep, po)
     conts = build_corpus(expanded=True)
+    # static, code side: every generated reader must stay inside the statement subset that tools/rust_codec.py translates (calls of the util
+    # readers with `?`, guarded allocations, loops, conditionals) and be the normal form of its definition, so that the totality theorem of
+    # the specification decoder speaks about its wire operations (Thm/C01c.lean reader_decodes_as_spec + Thm/C03.lean decode_total)
+    import readertie
+    po_c = proof_obligations("WowVerif.Thm.C01c")
+    add_proof_failures(rep, po_c)
+    tie_cov = readertie.report(rep, PID, readertie.compute())
     ok = [c for c in conts if "tokens" in c]
     rc, out, har = harness_build("world")
     if rc != 0:
@@ -211,9 +218,10 @@ def run(tier, seed):
         "evaluations": len(hreq), "distinct_nontrivial": len(seen) + sum(1 for x in hmeta if x[4] == "random-frame"),
         "rule": "seeds: one (thorough: four) canonical frame per version-expanded message + every wowm test vector; faults: every prefix, every 1/2/4-byte window := 0,1,2,max,max/2, header size +-, random bytes, random frames per opcode, every string member at 254..300 (thorough ..9000) bytes; distinct = distinct (library, direction, bytes)",
         "seeds": len(seeds), "fault_kinds": dict(kinds), "outcome_classes": dict(classes.most_common(12)), "largest_single_allocation": worst_alloc[0], "largest_allocation_request": worst_alloc[1],
-        "spec_theorems": po["theorems"], "spec_obligations": po["obligations"], "spec_discharged": po["discharged"],
+        "spec_theorems": dict(po["theorems"], **po_c["theorems"]), "spec_obligations": po["obligations"] + po_c["obligations"], "spec_discharged": po["discharged"] + po_c["discharged"],
+        "reader_tie": tie_cov,
         "samples": [{"request": hreq[i][:120], "implementation": ho[i][:120]} for i in (1, len(hreq) // 3, len(hreq) // 2, len(hreq) - 1)],
     }
     rep.assumptions = ["allocator behaviour, stack depth and wall-clock are observed (counting allocator, RLIMIT_AS 4 GiB, run timeout), not proved",
-                       "the proof part concerns the specification decoder only; the implementation is covered by the fault enumeration"]
+                       "the proof part concerns the specification decoder and — through the reader translation (tools/rust_codec.py, progeq) — the wire operations of the generated readers; panics inside the util readers, hand-written built-in readers, allocation and value plumbing are covered by the fault enumeration only"]
     return rep.finish()
